@@ -143,7 +143,7 @@ def _strings_ok(v) -> bool:
 
 
 def replay(ctx: Ctx, case: dict) -> None:
-    process(ctx, [case])
+    process(ctx, [case] * 8)       # several times: the shared formatter object carries state from call to call
 
 
 shrink_violation = c01.make_shrinker("foam", process)
